@@ -121,6 +121,26 @@ mod verif_bounded_mdk {
         }
     }
 
+    // C18 "the cached last-message pointer always designates the first message of the default order among messages that are not
+    // invalidated", after a rollback that follows a LATE message: a message of epoch n reaches the bystanders after they applied the (losing)
+    // commit that closed epoch n; it is stored and becomes the last message; the winning commit arrives, the rollback restores the group
+    // row of snapshot time -- pointer included -- and the late message, which is still valid, is no longer designated.
+    // FAILS on the unchanged tree = known finding F30; its own test and label so that nothing else hides behind it.
+    #[test]
+    fn late_message_then_rollback_pointer_history() {
+        let label = "mdk_backends_bounded.late_message_then_rollback_pointer_history";
+        let mut w = setup();
+        w.alice_msg(label, "m1");
+        let bob_commit = w.b.self_update(&w.gid).unwrap().evolution_event;
+        std::thread::sleep(std::time::Duration::from_millis(1100));
+        let late = w.a.create_message(&w.gid, create_test_rumor(&w.ak, "m2 (epoch 1, delivered late)")).unwrap();
+        let alice_commit = w.a.self_update(&w.gid).unwrap().evolution_event;
+        w.a.merge_pending_commit(&w.gid).unwrap();
+        w.deliver(label, "alice's (losing) commit", &alice_commit);
+        w.deliver(label, "alice's message of the epoch before that commit, arriving late", &late);
+        w.deliver(label, "bob's (winning, one second older) commit -> rollback", &bob_commit);
+    }
+
     // C01 / C07 / C02 (+ what C11 asks of the SQLite back end): the SQLite-backed bystander is closed and re-opened on its database
     // file between events; the memory-backed one keeps running. Scope: one history with a race resolved AFTER a restart and
     // re-deliveries after another restart.
